@@ -84,7 +84,8 @@ def abstract_model(case):
                        'parents': ['gas'] + (['bulk'] if has_bulk else [])})
     M['phases'] = phases
     # ---- species: fragments and their combinations
-    nfrag = 5 if case.get('size') == 'huge' else rnd.randint(2, 5 if big else 3)
+    rich = case.get('names') == 'rich'
+    nfrag = 5 if case.get('size') == 'huge' else (rnd.randint(4, 5) if rich else rnd.randint(2, 5 if big else 3))
     frags = []
     while len(frags) < nfrag:
         comp = {}
@@ -107,7 +108,37 @@ def abstract_model(case):
                     and _comp_name(c).upper() not in YAML11_WORDS:
                 combos.append((c, i, j))
     rnd.shuffle(combos)
-    combos = combos[:(7 if case.get('size') == 'huge' else rnd.randint(1, 6 if big else 2))]
+    combos = combos[:(7 if case.get('size') == 'huge' else rnd.randint(5, 9) if rich
+                      else rnd.randint(1, 6 if big else 2))]
+    # species names as real mechanisms write them (names='rich'): hyphens between letters (cis-, trans-,
+    # -top, -bridge, -fcc), hyphens next to digits (CH3-CH2 style: the two fragments joined), underscores,
+    # '*' and '+' inside the name; never blanks, commas, quotes or a leading '*'
+    drnd = random.Random(case['seed'] + 17)
+    table = {}
+
+    def mname(comp):
+        key = tuple(sorted(comp.items()))
+        if key not in table:
+            base = _comp_name(comp)
+            if rich:
+                parts = [c for c in combos if c[0] == comp]
+                style = drnd.choice(['pre', 'suf', 'suf', 'join', 'under', 'star', 'plus', 'plain'])
+                if style == 'join' and parts:
+                    base = '%s-%s' % (_comp_name(frags[parts[0][1]]), _comp_name(frags[parts[0][2]]))
+                elif style == 'pre':
+                    base = drnd.choice(['cis-', 'trans-', 'iso-']) + base
+                elif style in ('suf', 'join'):
+                    base = base + drnd.choice(['-top', '-bridge', '-fcc', '-hcp'])
+                elif style == 'under':
+                    base = base + drnd.choice(['_a', '_b2', '_ads'])
+                elif style == 'star':
+                    base = base + '*'
+                elif style == 'plus':
+                    base = base + '+'
+                while base in table.values():
+                    base += 'x'
+            table[key] = base
+        return table[key]
     species = []
     families = ['nasa'] if case.get('families') == 'nasa' else ['nasa', 'nasa', 'nasa9', 'shomate']
 
@@ -124,14 +155,14 @@ def abstract_model(case):
     gas_names = []
     for comp in mols:
         if rnd.random() < 0.7 or not gas_names:
-            gas_names.append(mk(_comp_name(comp), comp, 'gas', None)['name'])
+            gas_names.append(mk(mname(comp), comp, 'gas', None)['name'])
     if has_bulk:
         mk('%s(B)' % metal.upper(), {metal: 1}, 'bulk', None)
     for t in tags:
         ph = {'T': 'terrace', 'S': 'step'}[t]
         mk('%s(%s)' % (metal.upper(), t), {metal: 1}, ph, rnd.choice([1, 1, 1.0]))
         for comp in mols:
-            mk('%s(%s)' % (_comp_name(comp), t), add(comp, {metal: 1}), ph, rnd.choice([1, 1, 2, 1.0]))
+            mk('%s(%s)' % (mname(comp), t), add(comp, {metal: 1}), ph, rnd.choice([1, 1, 2, 1.0]))
     # write-edit-write cases: every phase gets a spectator that is the SOLE carrier of an element
     # and takes part in nothing; the edit plan removes / re-adds species between the two writes
     M['edits'] = []
@@ -215,7 +246,7 @@ def abstract_model(case):
             if not combos:
                 continue
             c, i, j = rnd.choice(combos)
-            ab, a, b = ['%s(%s)' % (_comp_name(x), t) for x in (c, frags[i], frags[j])]
+            ab, a, b = ['%s(%s)' % (mname(x), t) for x in (c, frags[i], frags[j])]
             left, right = [[1, ab], [1, site]], ([[1, a], [1, b]] if a != b else [[2, a]])
             direction = 'cleavage'
             if kind == 'assoc':
@@ -241,7 +272,7 @@ def abstract_model(case):
             if not combos:
                 continue
             c, i, j = rnd.choice(combos)
-            g, a, ab = _comp_name(frags[i]), '%s(%s)' % (_comp_name(frags[j]), t), '%s(%s)' % (_comp_name(c), t)
+            g, a, ab = mname(frags[i]), '%s(%s)' % (mname(frags[j]), t), '%s(%s)' % (mname(c), t)
             if g not in gas_names:
                 continue
             rx.update(lhs=[[1, a], [1, g]], rhs=[[1, ab]], A=rnd.choice([None, 1.0e13]),
@@ -731,6 +762,7 @@ def _cti_phase(d):
     itf, ite = rng('interactions')
     return {'name': str(kw.get('name')), 'kind': kind, 'species': _split(kw.get('species')),
             'elements': _split(kw.get('elements')), 'parents': _split(kw.get('phases')),
+            'sp_lines': (kw.get('species').count('\n') + 1) if isinstance(kw.get('species'), str) else 0,
             'sd': _num_or_text(kw.get('site_density')), 'density': _num_or_text(kw.get('density')),
             'rx_form': rf, 'rx_kw': '', 'rx_entries': re_,
             'int_form': itf, 'int_kw': '', 'int_entries': ite,
@@ -1091,6 +1123,9 @@ def generate(ctx, rnd):
             c['n_iface'] = 0
         if k % 3 == 2:
             c['rewrite'] = True
+        if k % 3 == 1:
+            c['names'] = 'rich'
+            c['size'] = 'big'
         if k % 4 == 1:
             c['beps'] = ['unnamed', 'mixed', 'auto_ns', 'named', 'unnamed'][(k // 4) % 5]
             c['size'] = 'big'
